@@ -63,7 +63,10 @@ func setBech32() {
 	bech32Done = true
 }
 
-const genesisUnix = 1700000000
+// genesisUnix: the block time the next NewChain starts at (reset to the default after use)
+var genesisUnix int64 = genesisUnixDefault
+
+const genesisUnixDefault = 1700000000
 
 // genesisInitialHeight: the height the next NewChain starts at (genesis.json initial_height); reset to 1 after use
 var genesisInitialHeight int64 = 1
